@@ -13,7 +13,7 @@ import FV.Model.Alloc
    M: 0/1;  A: scalar;  C: two scalars).
 -/
 namespace FV.Drv
-open FV
+open FV FV.Alloc
 
 variable {α : Type} [Add α] [Sub α] [Mul α] [Div α] [Neg α] [LT α] [LE α]
   [DecidableLT α] [DecidableLE α] [NatCast α] [DecidableEq α] [ScalarIO α]
